@@ -19,7 +19,13 @@ import (
 // Rand is splitmix64; one state per run, every random choice derives from it.
 type Rand struct{ s uint64 }
 
-func NewRand(seed uint64) *Rand { return &Rand{s: seed*0x9E3779B97F4A7C15 + 0x1234567} }
+// NewRand scrambles the seed first: with the plain state seed*GOLDEN+c, seed s+1
+// would be seed s advanced by one draw (consecutive seeds gave shifted copies).
+func NewRand(seed uint64) *Rand {
+	r := &Rand{s: seed ^ 0x5851F42D4C957F2D}
+	r.s = r.U64() ^ (seed * 0xD6E8FEB86659FD93)
+	return r
+}
 
 func (r *Rand) U64() uint64 {
 	r.s += 0x9E3779B97F4A7C15
